@@ -201,8 +201,26 @@ fn hs(x: &str) -> String {
     hex(x.as_bytes())
 }
 
+/// hex string, or `part+part+…` where a part is hex or `*<n>:<hex>` (the bytes repeated n times)
 fn unhex_str(w: &str) -> Option<String> {
-    String::from_utf8(unhex(w)?).ok()
+    if !w.contains('+') && !w.starts_with('*') {
+        return String::from_utf8(unhex(w)?).ok();
+    }
+    let mut out = Vec::new();
+    for part in w.split('+') {
+        match part.strip_prefix('*') {
+            Some(rep) => {
+                let (n, h) = rep.split_once(':')?;
+                let n: usize = n.parse().ok()?;
+                let b = unhex(h)?;
+                for _ in 0..n {
+                    out.extend_from_slice(&b);
+                }
+            }
+            None => out.extend_from_slice(&unhex(part)?),
+        }
+    }
+    String::from_utf8(out).ok()
 }
 
 /// `S <pat>` | `L<n> <pat>×n` → (patterns, is_single, rest)
@@ -1164,7 +1182,7 @@ fn gen_random(ctx: &Ctx, rng: &mut Rng, cases: &mut Vec<String>) {
         }
     }
     // long paths up to the URL limit (http::Uri: < 65535 bytes)
-    for i in 0..ctx.budget(12) {
+    for i in 0..ctx.budget(40) {
         let total = match i {
             0 => 65_534,
             1 => 65_535,
@@ -1173,20 +1191,26 @@ fn gen_random(ctx: &Ctx, rng: &mut Rng, cases: &mut Vec<String>) {
         };
         const LP: &[&str] = &["/{a}/{b}", "/u/{t}*", "/{a}-{b}", "/{a:[a-z0-9_]+}/x", "/{a}/x", "/{a:.*}/{b}"];
         let pat = *rng.pick(LP);
-        // shape: "/" + run + mid + run, sized to `total`
+        // shape: "/" + run + mid + run, sized to `total`; written compactly as repeated blocks
         const MID: &[&str] = &["/", "-", "/x", "//"];
         let mid = *rng.pick(MID);
         let left = rng.range(1, total - 10);
-        let mut s = String::with_capacity(total);
-        s.push('/');
-        while s.len() < left {
-            s.push(*rng.pick(&['a', 'b', '1', '_']));
-        }
-        s.push_str(mid);
-        while s.len() < total {
-            s.push(*rng.pick(&['a', 'b', '1', '_']));
-        }
-        push_m(cases, rng.chance(1, 3), &[pat.to_owned()], true, &[s]);
+        let right = total - 1 - left - mid.len();
+        const BLK: &[&str] = &["a", "ab1_", "b", "_1"];
+        let (b1, b2) = (*rng.pick(BLK), *rng.pick(BLK));
+        let word = format!(
+            "2f+*{}:{}+{}+{}+*{}:{}+{}",
+            left / b1.len(),
+            hs(b1),
+            hs(&b1[..left % b1.len()]).replace('-', ""),
+            hs(mid),
+            right / b2.len(),
+            hs(b2),
+            hs(&b2[..right % b2.len()]).replace('-', "")
+        )
+        .replace("++", "+");
+        let word = word.trim_end_matches('+').to_owned();
+        cases.push(format!("m {} S {} {}", if rng.chance(1, 3) { "P" } else { "F" }, hs(pat), word));
     }
 }
 
